@@ -27,6 +27,7 @@ structure DocRes (cfg : X2WCfg) (lang : Lang) (r : Node) (bs : Bytes) (d : Doc) 
   no : (dcfgOf cfg lang).useStrtbl = false → st.strtbl = []
   body : Seg (dcfgOf cfg lang) (docStartW (dcfgOf cfg lang) r) st [.elem d.root]
   view : ViewN (dcfgOf cfg lang) r (docStartW (dcfgOf cfg lang) r) st [.elem d.root]
+  wfT : WfN (dcfgOf cfg lang) none r (docStartW (dcfgOf cfg lang) r) st [.elem d.root]
 
 theorem treeToWbxml_doc (cfg : X2WCfg) (t : Tree) (bs : Bytes) (lang : Lang) (hlang : t.lang = some lang)
     (hl : langOk lang = true) (hover : treeOver lang t = true) (h : treeToWbxml cfg t = .ok bs) :
@@ -35,14 +36,14 @@ theorem treeToWbxml_doc (cfg : X2WCfg) (t : Tree) (bs : Bytes) (lang : Lang) (hl
   rw [hlang] at hl'; injection hl' with hl'; subst hl'
   simp only [treeOver, hr, Bool.and_eq_true] at hover
   have hinv0 := docStartW_inv (dcfgOf cfg lang) r
-  obtain ⟨items, hseg, hshape, _, hview⟩ := encNode_seg.1 (dcfgOf cfg lang) none true r _ rfl
+  obtain ⟨items, hseg, hshape, _, hview, hwfT, _⟩ := encNode_seg.1 (dcfgOf cfg lang) none true r _ rfl
     (by rw [dcfgOf_lang]; exact hl) (by rw [dcfgOf_lang]; exact hover.2) hinv0 st hrun
   obtain ⟨e, rfl⟩ := hshape hover.1
   have hinv := hseg.tbl.inv hinv0
   have hno : (dcfgOf cfg lang).useStrtbl = false → st.strtbl = [] := by
     intro hu; rw [hseg.tbl.no hu]; exact docStartW_noStrtbl _ _ hu
   refine ⟨r, { hdr := hdrOf (dcfgOf cfg lang) st, pre := [], root := e, post := [] }, st, hr,
-    ⟨hrun, ?_, rfl, rfl, rfl, hinv, hno, hseg, hview⟩⟩
+    ⟨hrun, ?_, rfl, rfl, rfl, hinv, hno, hseg, hview, hwfT⟩⟩
   rw [hbs, fillHeaderW_ser _ _ hinv hno]
   have hout := hseg.out
   rw [(docStartW_fields _ r).1, List.nil_append, serItems_single, serItem_elem] at hout
@@ -195,5 +196,119 @@ theorem DocRes.wf {cfg lang r bs d st} (h : DocRes cfg lang r bs d st) (hl : lan
     rw [(docStartW_fields _ r).2.1, (docStartW_fields _ r).2.2.1, wfItems_single, wfItem_elem] at this
     exact this
   · rw [h.post]; rfl
+
+/-- **Well-formedness with typed content.** The produced document is well-formed for every reader
+    configuration that selects the tree's language and a deliverable character set, under the four
+    source hypotheses (each a recorded finding): `noCdataInTyped` (`cdata-in-typed-element`),
+    `validDatetimeAttrs` (`invalid-datetime-attribute-accepted`), `b64TextDecodes` (D5: text that is
+    not base64 becomes an empty OPAQUE) and `keyValueTextFirst` (DRMREL text behind a child element).
+    `typedLangOk` is a table fact (true for every language of the library). -/
+theorem DocRes.wfTyped {cfg lang r bs d st} (h : DocRes cfg lang r bs d st) (hl : langOk lang = true)
+    (htl : typedLangOk lang = true)
+    (h1 : noCdataInTyped lang false r = true) (h2 : validDatetimeAttrs lang r = true)
+    (h3 : b64TextDecodes (dcfgOf cfg lang) none r = true)
+    (h4 : keyValueTextFirst (dcfgOf cfg lang) none true r = true)
+    (pcfg : PCfg) (hlang : headerLang pcfg d.hdr = some lang)
+    (hcs : headerCharset pcfg d.hdr = 3 ∨ headerCharset pcfg d.hdr = 106)
+    (hcsk : pcfg.charsets.contains (headerCharset pcfg d.hdr) = true)
+    (hver : cfg.version < 256) (hsize : bs.length < 4294967296) : d.WF pcfg := by
+  have htb := h.tblBytes
+  have hlen : (Spec.tblBytes d.hdr.strtbl).length < bs.length := by
+    rw [h.ser, Spec.ser, serHeader]
+    simp only [List.length_append, List.length_cons]
+    omega
+  have hidx : ∀ e ∈ finalTbl (dcfgOf cfg lang) st, e.offset < (Spec.tblBytes d.hdr.strtbl).length := by
+    intro e he; rw [htb]; exact finalTbl_offset_lt _ _ h.inv e he
+  unfold Doc.WF Doc.wf
+  rw [hlang]
+  simp only [Bool.and_eq_true]
+  have hcompat : Compat (dcfgOf cfg lang) st.strtbl (headerCtx pcfg d.hdr lang) := by
+    refine ⟨by simp [headerCtx], ?_, ?_⟩
+    · simp only [csOk, headerCtx, Bool.or_eq_true, beq_iff_eq]; exact hcs
+    · intro e he
+      exact hidx e (finalTbl_mem_of_body _ _ h.no e he)
+  refine ⟨?_, ⟨?_, ?_⟩, ?_⟩
+  · -- header
+    rw [h.hdr] at hcs hcsk ⊢
+    refine hdrOf_wf _ st h.inv (by rw [dcfgOf_lang]; exact hl) pcfg hcs hcsk (by rw [dcfgOf_version]; exact hver) ?_
+    rw [← htb]; omega
+  · rw [h.pre]; rfl
+  · rw [h.pre]
+    have hbody : (serElem d.root).length ≤ bs.length := by
+      rw [h.ser, Spec.ser, serBody]
+      simp only [List.length_append]
+      omega
+    have hpos : Pos (dcfgOf cfg lang) (headerCtx pcfg d.hdr lang) none
+        (docStartW (dcfgOf cfg lang) r).curTag false true none none := by
+      rw [(docStartW_fields _ r).2.2.2.1]; exact Pos.root _ _ true
+    have := h.wfT false true (by rw [dcfgOf_lang]; exact htl) (by rw [dcfgOf_lang]; exact h1)
+      (by rw [dcfgOf_lang]; exact h2) h3 h4 (headerCtx pcfg d.hdr lang) hcompat
+      (by intro x hx
+          have := h.body.osz x hx
+          rw [serItems_single, serItem_elem] at this
+          omega) none none hpos
+    rw [(docStartW_fields _ r).2.1, (docStartW_fields _ r).2.2.1, wfItems_single, wfItem_elem] at this
+    exact this
+  · rw [h.post]; rfl
+
+/-! ### The source hypotheses hold trivially in a language without typed content -/
+
+theorem untyped_typedRow (id : Nat) (h : untypedLang id = true) (r : TagRow) : typedRow id r = false := by
+  simp only [untypedLang, Bool.and_eq_true, Bool.not_eq_true'] at h
+  simp [typedRow, h.1.1.1.1.1, h.1.1.1.1.2, h.1.1.1.2]
+
+theorem untyped_kidsTy (l : Lang) (h : untypedLang l.id = true) (nm : Name) : kidsTy l false nm = false := by
+  cases nm with
+  | token r => exact untyped_typedRow _ h r
+  | literal s => simp [kidsTy, untyped_typedRow _ h]
+
+theorem untyped_kvPar (l : Lang) (h : untypedLang l.id = true) (p : Option Name) : kvPar l p = false := by
+  simp only [untypedLang, Bool.and_eq_true, Bool.not_eq_true'] at h
+  cases p with
+  | none => rfl
+  | some nm =>
+    cases nm with
+    | token r => simp [kvPar, isKvRow, h.1.1.1.1.2]
+    | literal s => rfl
+
+theorem untyped_dtAttrOk (l : Lang) (h : untypedLang l.id = true) (a : Attr) : dtAttrOk l a = true := by
+  have := untyped_noTypedAttr _ h
+  simp [dtAttrOk, dtAttrName, noTypedAttr_dt _ this]
+
+theorem untyped_iconAttrOk (l : Lang) (h : untypedLang l.id = true) (na) (a : Attr) : iconAttrOk l na a = true := by
+  simp only [untypedLang, Bool.and_eq_true, Bool.not_eq_true'] at h
+  simp [iconAttrOk, iconValName, iconRow, h.2]
+
+mutual
+theorem untyped_node (c : WCfg) (h : untypedLang c.lang.id = true) : ∀ (n : Node) (parent : Option Name) (pre : Bool),
+    noCdataInTyped c.lang false n = true ∧ validDatetimeAttrs c.lang n = true ∧
+    b64TextDecodes c parent n = true ∧ keyValueTextFirst c parent pre n = true
+  | .elt nm attrs kids, parent, pre => by
+    have ih := untyped_nodes c h kids (some nm) true
+    rw [noCdataInTyped, validDatetimeAttrs, b64TextDecodes, keyValueTextFirst, untyped_kidsTy _ h]
+    refine ⟨ih.1, ?_, ?_, ih.2.2.2⟩
+    · rw [Bool.and_eq_true]; exact ⟨List.all_eq_true.mpr (fun a _ => untyped_dtAttrOk _ h a), ih.2.1⟩
+    · rw [Bool.and_eq_true]; exact ⟨List.all_eq_true.mpr (fun a _ => untyped_iconAttrOk _ h _ a), ih.2.2.1⟩
+  | .text s, parent, pre => by
+    rw [noCdataInTyped, validDatetimeAttrs, b64TextDecodes, keyValueTextFirst, untyped_kvPar _ h]
+    simp
+  | .cdata kids, parent, pre => by
+    have ih := untyped_nodes c h kids none pre
+    rw [noCdataInTyped, validDatetimeAttrs, b64TextDecodes, keyValueTextFirst]
+    exact ⟨by simp [ih.1], ih.2.1, ih.2.2.1, ih.2.2.2⟩
+  | .tree _ _ _, parent, pre => by
+    rw [noCdataInTyped, validDatetimeAttrs, b64TextDecodes, keyValueTextFirst]
+    simp
+theorem untyped_nodes (c : WCfg) (h : untypedLang c.lang.id = true) : ∀ (l : List Node) (parent : Option Name) (pre : Bool),
+    noCdataInTypedL c.lang false l = true ∧ validDatetimeAttrsL c.lang l = true ∧
+    b64TextDecodesL c parent l = true ∧ keyValueTextFirstL c parent pre l = true
+  | [], _, _ => by
+    rw [noCdataInTypedL, validDatetimeAttrsL, b64TextDecodesL, keyValueTextFirstL]; simp
+  | n :: rest, parent, pre => by
+    have h1 := untyped_node c h n parent pre
+    have h2 := untyped_nodes c h rest parent (pre && isTextN n)
+    rw [noCdataInTypedL, validDatetimeAttrsL, b64TextDecodesL, keyValueTextFirstL]
+    simp [h1.1, h1.2.1, h1.2.2.1, h1.2.2.2, h2.1, h2.2.1, h2.2.2.1, h2.2.2.2]
+end
 
 end Wbxml.Lemmas.EncW
